@@ -10,7 +10,7 @@
 //!   fuzz_read        [fmt] asset
 //!   fuzz_store       store
 //!   fuzz_sidecar     [fmt] [len:3 LE] manifest asset
-//!   fuzz_ingredient  [fmt] [opts] asset
+//!   fuzz_ingredient  [fmt] [opts: 1 componentOf, 2 sign, 4 thumbnails] asset
 //!   fuzz_archive     [api] archive
 //!   fuzz_write       [fmt] [store_len:2 LE] [seed] asset
 //!   fuzz_struct      knobs (Unstructured)
@@ -223,6 +223,12 @@ fn mkcorpus(root: &str) {
             let mut v = vec![fmt_byte(&fmts, mime), 1u8];
             v.extend_from_slice(&data);
             out.put("fuzz_ingredient", &format!("fixture-{n}"), &v);
+            // decodable images with automatic thumbnails on (opts bit 2)
+            if matches!(mime, "image/png" | "image/jpeg" | "image/webp" | "image/gif" | "image/tiff") {
+                let mut v = vec![fmt_byte(&fmts, mime), 5u8];
+                v.extend_from_slice(&data);
+                out.put("fuzz_ingredient", &format!("fixture-thumb-{n}"), &v);
+            }
         }
     }
     for (n, s) in &fixture_stores {
